@@ -60,19 +60,10 @@ func (cj *CookieJar) getByHostAndPath(host, path []byte) []*fasthttp.Cookie {
 		return nil
 	}
 
-	var (
-		err     error
-		cookies []*fasthttp.Cookie
-		hostStr = utils.UnsafeString(host)
-	)
-
-	// port must not be included.
-	hostStr, _, err = net.SplitHostPort(hostStr)
-	if err != nil {
-		hostStr = utils.UnsafeString(host)
-	}
+	// port must not be included (same normalisation as when storing).
+	hostStr := utils.UnsafeString(hostWithoutPort(host))
 	// get cookies deleting expired ones
-	cookies = cj.getCookiesByHost(hostStr)
+	cookies := cj.getCookiesByHost(hostStr)
 
 	newCookies := make([]*fasthttp.Cookie, 0, len(cookies))
 	for i := 0; i < len(cookies); i++ {
@@ -263,6 +254,10 @@ func (cj *CookieJar) Release() {
 func hostWithoutPort(host []byte) []byte {
 	if h, _, err := net.SplitHostPort(utils.UnsafeString(host)); err == nil {
 		return utils.UnsafeBytes(h)
+	}
+	// SplitHostPort hands an IPv6 literal back without its brackets: do the same when there is no port.
+	if len(host) > 2 && host[0] == '[' && host[len(host)-1] == ']' {
+		return host[1 : len(host)-1]
 	}
 	return host
 }
